@@ -199,6 +199,42 @@ func suiteC06(c *Ctx) {
 		if out2 != out {
 			c.Cov.Fail(Failure{Kind: "violated", Clause: "idempotent", Signature: sig, Line: line, Reply: "second application " + hxs(out2) + " != " + hxs(out)})
 		}
+		// determinism across sanitizers: the application carves the character lists of two option sets out of ONE list
+		// (`allowed[:k]`: the second list has spare capacity that belongs to the first); constructing and using the
+		// second sanitizer must not change what the first one does
+		if i%25 == 0 {
+			base := []rune{'.', '-', '_', '+', ':', 'x', 'é'}
+			for a := len(base) - 1; a > 0; a-- { // Fisher-Yates from the case's own PRNG
+				b := r.Intn(a + 1)
+				base[a], base[b] = base[b], base[a]
+			}
+			k1 := r.Range(2, len(base))
+			k2 := r.Range(0, k1-1)
+			list1 := append([]rune(nil), base[:k1]...) // the first sanitizer's list, by value, for the model
+			o1 := tally.ValidCharacters{Characters: base[:k1]}
+			rep1 := base[r.Intn(k1)]
+			s1 := tally.NewSanitizer(tally.SanitizeOptions{NameCharacters: o1, KeyCharacters: o1, ValueCharacters: o1, ReplacementCharacter: rep1})
+			in := "ab" + string(base) + "yz" + string(base[:k1])
+			before := s1.Name(in)
+			o2 := tally.ValidCharacters{Characters: base[:k2]}
+			rep2 := []rune{'#', '%', base[k1-1]}[r.Intn(3)] // not among the second list's characters
+			s2 := tally.NewSanitizer(tally.SanitizeOptions{NameCharacters: o2, KeyCharacters: o2, ValueCharacters: o2, ReplacementCharacter: rep2})
+			s2.Name(in)
+			s2.Value(in)
+			after := s1.Name(in)
+			cs := make([]string, len(list1))
+			for j, x := range list1 {
+				cs[j] = strconv.Itoa(int(x))
+			}
+			line2 := fmt.Sprintf("san - %s %d %s", joinList(cs), rep1, hxs(in))
+			c.Cov.Hit("options.lists-carved-from-one-slice")
+			if after != before {
+				c.Cov.Fail(Failure{Kind: "violated", Clause: "deterministic", Signature: "sanitize-changes-after-another-sanitizer-was-built", Line: line2,
+					Reply: fmt.Sprintf("Name(%q) = %q before and %q after a second sanitizer was built from allowed[:%d] of the same list (replacement %q)", in, before, after, k2, rep2)})
+			} else {
+				c.Cov.Check(c.Drv, line2+" => "+hxs(after), "sanitize-shared-list")
+			}
+		}
 		// determinism + buffer pool independence: 16 goroutines sanitize DIFFERENT strings (distinct fill
 		// letters and lengths, each needing a replacement so that the pooled buffer is used) and every result is
 		// compared with the result computed alone beforehand
